@@ -8,7 +8,7 @@ from checks import when_common as wc
 
 
 def main(ck):
-    wc.run_check(ck, "C09", "h_c09", 8, "props/Properties_C09.v")
+    wc.run_check(ck, "C09", "h_c09", 8, "props/Properties_C09.v", shared_parts=(0, 1, 2), shared_sets=("P09", "S09"))
 
 
 def replay(ck, path):
